@@ -393,11 +393,11 @@ def run_case(case, keep=False):
         entry = case.get("entry", "c")
         stdin_data = None
         if entry == "c":
-            cmd = [CICADA, "-c", case["text"].replace("@CWD@", cwd)]
+            cmd = [CICADA, "-c", case["text"].replace("@CWD@", cwd).replace("@SCRATCH@", d)]
         elif entry == "script":
             sp = os.path.join(d, "vh", case.get("script_name", "s.sh"))
             with open(sp, "w", encoding="utf-8", newline="") as f:
-                f.write(case["text"].replace("@CWD@", cwd))
+                f.write(case["text"].replace("@CWD@", cwd).replace("@SCRATCH@", d))
             cmd = [CICADA, sp] + list(case.get("args", []))
         elif entry == "stdin":
             cmd = [CICADA]
